@@ -39,6 +39,7 @@ def run(repo, res, tier):
     from .. import hookrules as _hk
     _hk.rule_token_init(repo, res)
     lexrules.rule_preserve_first(repo, res)
+    lexrules.rule_preserve_open(repo, res)
     common.token_wsc_rule(repo, res)
     from .. import langrules
     langrules.rule_wsc_lang(repo, res, langrules.analyse(repo))
